@@ -57,7 +57,7 @@ func runC17(r *Run) {
 		}
 		r.need(len(c.lookups) == 2, "two lookups (fast path, under lock)")
 		for _, in := range instrsWhere(c.h, func(in ssa.Instruction) bool { return isCallTo(in, isNextName) }) {
-			if c.lock.Block().Dominates(in.Block()) {
+			if dom(c.lock.Block(), in.Block()) {
 				c.next = in
 			}
 		}
@@ -96,7 +96,7 @@ func runC17(r *Run) {
 		gate("lock-acquired", tupleEdges(c.h, c.lock.Value(), -1, func(br branch) (int, bool) { return br.nilSlot(true) }), "the handler can run although the key lock was not acquired")
 		var under callSite
 		for _, l := range c.lookups {
-			if c.lock.Block().Dominates(l.Block()) {
+			if dom(c.lock.Block(), l.Block()) {
 				under = l
 			}
 		}
